@@ -4,7 +4,9 @@
  * registered start/cleanup timers with the timer pump, and prints one operation per line followed by
  * what the implementation did.
  *
- *   C <kind h|s> <prod 0|1|2>                                          new case: never-checked checkable; prod=1: the
+ *   C <kind h|s> <prod 0|1|2> [<mca>]                                  new case: never-checked checkable with max_check_attempts
+ *                                                                      <mca> (default 1; > 1: non-OK results first give SOFT states -
+ *                                                                      the property does not depend on the state type); prod=1: the
  *                                                                      checkable and every downtime are created through
  *                                                                      ConfigObjectUtility::CreateObject / Downtime::AddDowntime;
  *                                                                      prod=2: additionally downtimes are scheduled through the
@@ -103,18 +105,18 @@ static bool CreateViaApi(const Type::Ptr& type, const String& fullName, const Di
 	return true;
 }
 
-static void MakeChecker(bool host, int prod)
+static void MakeChecker(bool host, int prod, int mca)
 {
 	g_CaseNo++;
 	g_Prod = prod;
 	g_HostName = "h" + Convert::ToString(g_CaseNo);
 	g_SvcShort = "s";
 	if (prod) {
-		if (!CreateViaApi(Host::TypeInstance, g_HostName, new Dictionary({{"check_command", "c05cmd"}, {"max_check_attempts", 1}})))
+		if (!CreateViaApi(Host::TypeInstance, g_HostName, new Dictionary({{"check_command", "c05cmd"}, {"max_check_attempts", mca}})))
 			_exit(3);
 		g_Obj = Host::GetByName(g_HostName);
 		if (!host) {
-			if (!CreateViaApi(Service::TypeInstance, g_HostName + "!" + g_SvcShort, new Dictionary({{"check_command", "c05cmd"}, {"max_check_attempts", 1}})))
+			if (!CreateViaApi(Service::TypeInstance, g_HostName + "!" + g_SvcShort, new Dictionary({{"check_command", "c05cmd"}, {"max_check_attempts", mca}})))
 				_exit(3);
 			g_Obj = Service::GetByNamePair(g_HostName, g_SvcShort);
 		}
@@ -123,7 +125,7 @@ static void MakeChecker(bool host, int prod)
 	}
 	Host::Ptr h = new Host();
 	h->SetName(g_HostName);
-	h->SetMaxCheckAttempts(1);
+	h->SetMaxCheckAttempts(mca);
 	h->Register();
 	h->PreActivate();
 	h->Activate();
@@ -136,7 +138,7 @@ static void MakeChecker(bool host, int prod)
 		s->SetHostName(g_HostName);
 		s->SetShortName(g_SvcShort);
 		s->SetName(g_HostName + "!" + g_SvcShort);
-		s->SetMaxCheckAttempts(1);
+		s->SetMaxCheckAttempts(mca);
 		s->Register();
 		s->OnAllConfigLoaded();
 		s->PreActivate();
@@ -178,7 +180,7 @@ static void EndCase()
 
 static int TakeStartTimerFired();
 
-static void BeginCase(bool host, int prod)
+static void BeginCase(bool host, int prod, int mca = 1)
 {
 	EndCase();
 	fflush(stdout); /* whole cases reach the output; this process is the only writer of its stdout and never forks */
@@ -189,10 +191,10 @@ static void BeginCase(bool host, int prod)
 	g_Base = g_Max + 5 - 1000;
 	Application::SetStartTime(g_Base + 990);
 	ClockRel(990);
-	MakeChecker(host, prod);
+	MakeChecker(host, prod, mca);
 	ClockRel(1000);
 	g_Events.clear();
-	printf("C %c %d\n", host ? 'h' : 's', prod);
+	printf("C %c %d %d\n", host ? 'h' : 's', prod, mca);
 }
 
 static void Observe(int rc)
@@ -362,7 +364,9 @@ struct GenDt { int id, fixed; long long start, end, dur; int trigBy, owner; bool
 static void GenCase(Rng& rng, bool thorough, int prod)
 {
 	bool host = rng.coin();
-	BeginCase(host, prod);
+	/* half of the cases with max_check_attempts > 1: problems that are (still) SOFT */
+	int mca = rng.coin() ? 1 : 2 + (int)rng.below(3);
+	BeginCase(host, prod, mca);
 	int n = 1 + (int)rng.below(5);
 	std::vector<GenDt> dts;
 	std::vector<long long> marks; /* boundary instants */
@@ -466,7 +470,7 @@ static void Systematic(bool thorough)
 	for (size_t a = 0; a < grid.size(); a++)
 	for (size_t r = a; r < grid.size(); r++)
 	for (int order = 0; order < 2; order++) {
-		BeginCase(host != 0, 0);
+		BeginCase(host != 0, 0, (a + r) % 2 ? 3 : 1);
 		int first = order ? state : 0;
 		DoResult(first, 1000, 1000);
 		DoAdd(1, fixed, S, E, 5, 0, 0, grid[a]);
@@ -475,6 +479,63 @@ static void Systematic(bool thorough)
 		DoPump(grid[r]);
 		for (size_t p = r; p < grid.size(); p++)
 			DoPump(grid[p]);
+	}
+}
+
+/* Systematic part for trigger chains: a trigger downtime P (fixed, scheduled ahead and started by the start timer or
+ * created inside its window; or flexible, triggered by a non-OK result) with 2-3 downtimes chained to it (and
+ * optionally one chained to the second of them), every subset of the chained ones removed (by a user, or - with a
+ * window that is over before P starts - expired) before P takes effect.  What is left in P's `triggers` array then
+ * are names of downtimes that no longer exist next to names of existing ones, in every arrangement. */
+static void SystematicChains(bool thorough)
+{
+	int caseNo = 0;
+	for (int pfixed = 1; pfixed >= 0; pfixed--)
+	for (int nch = 2; nch <= 3; nch++)
+	for (int mask = 0; mask < (1 << nch); mask++)        /* which chained downtimes disappear before P takes effect */
+	for (int how = 0; how < 2; how++)                     /* 0: removed by a user, 1: expired */
+	for (int grand = 0; grand < 2; grand++)
+	for (int chfixed = 0; chfixed < (thorough ? 3 : 2); chfixed++) { /* chained ones: 0 flexible, 1 alternating, 2 fixed */
+		if (mask == 0 && how == 1)
+			continue;
+		caseNo++;
+		int prod = caseNo % 5 == 0 ? 1 : (caseNo % 7 == 0 ? 2 : 0);
+		if (prod == 2 && how == 1)
+			prod = 1; /* (an expired window cannot be scheduled through the API action: end_time in the past is fine, keep it simple) */
+		BeginCase(caseNo % 2 == 0, prod, caseNo % 3 == 0 ? 3 : 1);
+		DoResult(0, 1000, 1000);
+		DoAdd(1, pfixed, 1010, 1030, 6, 0, 0, 1000);
+		for (int c = 0; c < nch; c++) {
+			bool goes = (mask >> c) & 1;
+			int fx = chfixed == 2 ? 1 : (chfixed == 1 ? c % 2 : 0);
+			if (goes && how == 1)
+				DoAdd(2 + c, fx, 1001, 1004, 2, 1, 0, 1000 + c);      /* over before P starts */
+			else
+				DoAdd(2 + c, fx, 1010, 1030, 7, 1, 0, 1000 + c);
+		}
+		if (grand)
+			DoAdd(2 + nch, 0, 1010, 1030, 5, 3, 0, 1003);             /* chained to the second chained one */
+		if (how == 0) {
+			for (int c = 0; c < nch; c++)
+				if ((mask >> c) & 1)
+					DoRemove(2 + c, 1, 1004);
+		} else {
+			DoPump(1005);
+			DoPump(1006);
+		}
+		if (pfixed) {
+			for (long long t = 1010; t <= 1015; t++) /* the start timer is due at one of these instants */
+				DoPump(t);
+		} else {
+			DoPump(1010);
+			DoResult(2, 1011, 1011);
+			DoPump(1012);
+		}
+		DoResult(0, 1016, 1016);
+		DoPump(1017);
+		DoPump(1019);
+		DoRemove(1, 1, 1020);
+		DoPump(1040);
 	}
 }
 
@@ -550,6 +611,7 @@ int main(int argc, char **argv)
 		std::string tier = argOr(argc, argv, "--tier", "quick");
 		bool thorough = tier == "thorough";
 		Systematic(thorough);
+		SystematicChains(thorough);
 		Rng rng(seed);
 		int n = thorough ? 60000 : 6000;
 		for (int i = 0; i < n; i++)
@@ -561,9 +623,9 @@ int main(int argc, char **argv)
 		char line[512];
 		while (fgets(line, sizeof line, f)) {
 			if (line[0] == 'C') {
-				char k; int prod = 0;
-				if (sscanf(line, "C %c %d", &k, &prod) < 1) { fprintf(stderr, "bad C line\n"); rcode = 2; break; }
-				BeginCase(k == 'h', prod);
+				char k; int prod = 0, mca = 1;
+				if (sscanf(line, "C %c %d %d", &k, &prod, &mca) < 1 || mca < 1) { fprintf(stderr, "bad C line\n"); rcode = 2; break; }
+				BeginCase(k == 'h', prod, mca);
 			} else if (!g_Obj && (line[0] == 'A' || line[0] == 'R' || line[0] == 'T' || line[0] == 'X' || line[0] == 'P')) {
 				fprintf(stderr, "operation before C line\n"); rcode = 2; break;
 			} else if (line[0] == 'A') {
